@@ -375,17 +375,17 @@ def parse_flat(tokens):
 
 def flat_src(tokens):
     out = []
+    glue = ""
     for t in tokens:
         if t[0] == "atom":
-            s = to_src(t[1])
-            if out and out[-1] in ("-", "+"):
-                out[-1] += s
-            else:
-                out.append(s)
+            out.append(glue + to_src(t[1]))
+            glue = ""
         elif t[0] == "op":
             out.append(CMP_SRC.get(t[1], t[1]))
+        elif t[1] == "not":
+            out.append("not")
         else:
-            out.append(t[1])
+            glue += t[1]
     return " ".join(out)
 
 
